@@ -336,6 +336,16 @@ func orchestrate() int {
 			tot.Samples = append(tot.Samples, o.Samples...)
 		}
 	}
+	// reach: a probe stuck at zero means the plans no longer get to what the
+	// check is about; that is infrastructure trouble, not a pass
+	if len(tot.Findings) == 0 {
+		for _, name := range []string{"request-valid", "request-invalid", "request-parked-before-capture", "request-parked-and-resumed", "request-client-hung-up", "request-context-cancelled", "released", "spawn:via-helper-goroutine", "elided-stack", "sleeper-expired"} {
+			if tot.Probes[name] == 0 {
+				fmt.Fprintf(os.Stderr, "INFRASTRUCTURE: reach probe %q stayed at zero over %d plans: the workload no longer reaches what this check is about\n", name, tot.Runs)
+				return 2
+			}
+		}
+	}
 	// free-running -race stages (not simulated)
 	free := map[string]any{}
 	rc := 0
